@@ -752,7 +752,9 @@ func c19Witness1e12(t *testing.T, tr *Trace) {
 	tr.Count("witness:1e12")
 }
 
-// W2: a gauge with TotalTriggers = 0 is accepted; its deposit is never paid.
+// W2 (regression; defect repaired in the repository by `fix: reject a reward gauge with zero epochs`): a gauge with
+// TotalTriggers = 0 must be REJECTED by ValidateBasic; if it is accepted again the monitor zero_epochs fires and the
+// model (which refuses it) diverges.
 func c19WitnessZeroEpochs(t *testing.T, tr *Trace) {
 	w := c19NewWorld(t, tr, 1000000000000, 1000000, [3]uint64{1000000, 1000000, 1000000})
 	w.must(w.farm(w.acct(0), w.pools[0], sdk.NewInt(1000000000)))
@@ -779,6 +781,52 @@ func c19WitnessExtOverpay(t *testing.T, tr *Trace) {
 	w.block(25 * time.Hour)
 	w.block(25 * time.Hour)
 	tr.Count("witness:ext_overpay")
+}
+
+// G1 (directed, no defect): farmed values so large that the floored rewards add up to MORE than the allocation; only the
+// sum-of-shares guard of BeginRewardDistributions (distribution.go:84) stands between that and an over-payment. The real
+// trigger must refuse the epoch (not counted, nothing paid). The allocation is found by asking the real share computation.
+func c19GuardCase(t *testing.T, tr *Trace) {
+	w := c19NewWorld(t, tr, 1000000000000, 1, [3]uint64{65000000000, 65000000000, 65000000000})
+	a := w.acct(1)
+	pc := w.deposit(a, w.pools[0], 900000000000)
+	w.must(w.farm(a, w.pools[0], pc.Amount))
+	bal := w.app.BankKeeper.GetBalance(w.ctx, w.acct(0), w.pools[0].PoolCoinDenom).Amount
+	w.must(w.farm(w.acct(0), w.pools[0], bal))
+	w.settle(25 * time.Hour)
+	meta := rewardstypes.LiquidtyGaugeMetaData{PoolId: 1}
+	found := uint64(0)
+	// multiplier = alloc/S rounds UP to 10^-18 as soon as alloc/S ≥ ½·10^-18: start just above S_raw / (2·10^36)
+	c0, _ := w.ctx.CacheContext()
+	in, _, _ := w.shareInputs(c0, meta)
+	sRaw := new(big.Int)
+	for _, v := range in.lp {
+		x, _ := new(big.Int).SetString(v, 10)
+		sRaw.Add(sRaw, x)
+	}
+	start := new(big.Int).Quo(sRaw, new(big.Int).Mul(big.NewInt(2), new(big.Int).Exp(big.NewInt(10), big.NewInt(36), nil))).Uint64() + 1
+	for alloc := start; alloc < start+50 && found == 0; alloc++ {
+		d := w.computeDist(meta, sdk.NewCoin("urew", sdk.NewIntFromUint64(alloc)))
+		sum := uint64(0)
+		for _, r := range d.rewards {
+			v, _ := strconv.ParseUint(r, 10, 64)
+			sum += v
+		}
+		if d.outcome == "ok" && sum > alloc {
+			found = alloc
+		}
+	}
+	if found == 0 {
+		tr.Count("guardcase:not-found")
+		return
+	}
+	tr.Count("guardcase:found")
+	w.fund(w.acct(2), sdk.NewCoins(sdk.NewCoin("urew", sdk.NewIntFromUint64(found*3))))
+	w.createGauge(c19GaugeSpec{creator: 2, denom: "urew", deposit: sdk.NewIntFromUint64(found * 3), total: 3, start: w.ctx.BlockTime(), dur: 24 * time.Hour, pool: 1, typeID: 1})
+	w.block(time.Hour)
+	w.block(25 * time.Hour)
+	w.block(25 * time.Hour)
+	w.block(25 * time.Hour)
 }
 
 // ---------------------------------------------------------------------------------------------
@@ -880,7 +928,7 @@ func c19Lifecycle(t *testing.T, tr *Trace, rng *Rng, seqNo int) {
 		// malformed stream
 		switch rng.Intn(40) {
 		case 0:
-			s.total = 0 // accepted by the code (defect witness W2); rare in the generated stream
+			s.total = 0 // must be rejected (W2)
 			tr.Count("create:zero-epochs")
 		case 1:
 			s.start = w.ctx.BlockTime().Add(-time.Hour)
@@ -1021,6 +1069,7 @@ func TestC19(t *testing.T) {
 	c19Witness1e12(t, tr)
 	c19WitnessZeroEpochs(t, tr)
 	c19WitnessExtOverpay(t, tr)
+	c19GuardCase(t, tr)
 	c19Split(tr, rng)
 	c19Float(tr, rng)
 	c19Shares(t, tr, rng)
